@@ -42,7 +42,7 @@ import c19_repo as R
 MANIFEST = dict(
     technique="TLA+ spec UpdateFile (one action per step of update_file/download_file/replace_file over the file-system variables local and local+'.new', one fault per behaviour) model-checked by TLC in a closed configuration; every terminal behaviour replayed into the real function on generated file:// repositories with injected faults (wrapped open/rename and RLIMIT_FSIZE); recorded executions validated by TLC (TraceUpdateFile)",
     text="TLC explores every call of update_file over all histories of at most 4 published versions (content ids, repeats allowed) x how far back the index reaches x local copy absent / at any version / current / foreign x one fault (each patch corrupted or truncated, last patch consistent with the index but producing a wrong result, wrong Current hash, index missing / garbage / empty, open, k-th write, close or rename failing) and checks in every state that the local file is the old or the new content, that a returned call left and returned the current content, that a raised call left the local file untouched and no '.new', that exactly the reached hash and write faults raise, and that every call terminates. Each terminal behaviour, with TLC's terminal state as expectation, is concretized (texts, ed scripts from an independent differ, gzip files, Index in SHA1/SHA256 flavours, field order, padding) and replayed into the real function, write faults both through a wrapped open()/os.rename and implementation-agnostically through RLIMIT_FSIZE in a forked child. In the other direction random histories of up to 8 versions and 30 lines with a random fault are executed with a recorder on the file-system and download calls and TLC must explain the observed step sequence and final state with the specification's actions.",
-    note="Small-scope for the exhaustive part (<= 4 versions, 0-3 write calls); texts are sampled. Verdict observables: outcome, local file bytes, returned lines, '.new' after an error; step order, exception types, '.new' after success and left-over download temp files are diagnostics (spec_drift). Unspecified and not generated: indexes that parse but have a wrong column count or name unknown patches (D6), lines that are exactly '.', '\\r', non-UTF-8 local files, missing patch files. SHA256 indexes are exercised only if debian_support can compute SHA256 on this interpreter (it needs the private _sha256 module, gone in Python 3.12). Write faults injected through wrappers count only when the wrapper fired (else skipped; > 5 % skipped is a machinery failure). Four spec-level negative controls and corrupted control traces are required to fail in every run.",
+    note="Small-scope for the exhaustive part (<= 4 versions, 0-3 write calls); texts are sampled. Verdict observables: outcome, local file bytes, returned lines, '.new' after an error; step order, exception types, '.new' after success and left-over download temp files are diagnostics (spec_drift). Unspecified and not generated: indexes that parse but have a wrong column count or name unknown patches (D6), lines that are exactly '.', '\\r', non-UTF-8 local files, missing patch files. Write faults injected through wrappers count only when the wrapper fired (else skipped; > 5 % skipped is a machinery failure). Four spec-level negative controls and corrupted control traces are required to fail in every run.",
     design="5 (C19)")
 
 NEG_CONTROLS = [("noCleanup", "NeverCorrupt"), ("skipVerifyResult", "Converges"),
@@ -50,26 +50,13 @@ NEG_CONTROLS = [("noCleanup", "NeverCorrupt"), ("skipVerifyResult", "Converges")
 ALL_FLAVOURS = [["SHA1"], ["SHA256"], ["SHA1", "SHA256"]]
 
 
-def sha256_supported():
-    """can the code under test hash with SHA256 at all on this interpreter?  (debian_support imports
-    the private _sha256 module and raises NotImplementedError without it)"""
-    try:
-        from debian import debian_support as ds
-        ds.read_lines_sha256([b"x"])
-        return True
-    except NotImplementedError:
-        return False
-    except Exception:
-        return True         # anything else is for the check itself to find
-
-
 def flavour_sets(ctx):
-    if sha256_supported():
-        return ALL_FLAVOURS
-    ctx.extra["sha256_supported"] = False
-    ctx.assumptions.append("debian_support cannot compute SHA256 on this interpreter (no _sha256 module): "
-                           "only SHA1 indexes are replayed; a SHA256 index raises NotImplementedError (local file intact)")
-    return [["SHA1"]]
+    """SHA1 and SHA256 indexes are both in the property's domain (every current archive publishes
+    SHA256-*).  An interpreter on which debian_support cannot hash SHA256 makes update_file raise
+    NotImplementedError on such an index: that is a violation (it was one on Python 3.12 until
+    /repo commit 47d28db), not a reason to narrow the check."""
+    ctx.extra["sha256_supported"] = True
+    return ALL_FLAVOURS
 
 
 def _cfg(name, **subst):
